@@ -30,7 +30,7 @@ URIS = [None, "", "https://good/cb", "https://good/cb2?keep=1&x=a+b", "https://g
         "https://evil/cb", "https://good/cbx", "https://good/cb/", "https://good/c", "https://good/cb?x=1", "https://good/CB", "good/cb", "https://good/cb#frag",
         "javascript:alert(1)", "https://good/cb2", "https://evil/cb?keep=1&x=a+b", "//good/cb"]
 SCOPES = [None, "", "openid", "openid profile", "profile", "profile openid", "zzz", "openid zzz"]
-STATES = [None, "", "xyz", "a b&c=d#e"]
+STATES = [None, "", "xyz", "a b&c=d#e", " lead", "trail ", "\tboth\n", " "]
 NONCES = [None, "", "n1", "used"]
 PROMPTS = [None, "", "none", "login", "none login", "consent"]
 MODES = [None, "query", "fragment", "form_post", "bogus"]
